@@ -303,6 +303,8 @@ def run_case(case: dict[str, Any]) -> dict[str, Any]:
         restarts = [tt for tt, to in toggles if to and f <= tt <= it['t1']] + ([t_stop] if f <= t_stop <= it['t1'] else [])
         restarts += [e['t'] + BATCH for e in by_uid.get(it['uid'], []) if e['type'] == 'DELETED' and f <= e['t'] <= it['t1']]
         f_late = max([f] + restarts)
+        if 'OPERATOR_PAUSING' in reasons:
+            f_late = max(f_late, f + 1.0)     # a daemon spawned at the instant of pausing is met by the killer's next once-per-second sweep, which starts the stages anew
         if timeout is not None and it['t1'] > f_late + (backoff or 0) + W2 and not it['cancels'] and it['t1'] < t_end - 1e-9:
             viol.append({'mech': staged_mech(it, 'not-cancelled-after-backoff', f, it['t1']), 'msg': f"{it['h']} on {it['uid']}: stop flag at t={f}, backoff={backoff}, timeout={timeout}: still running at t={it['t1']} and never cancelled", 'witness': it})
         if it['cancels'] and timeout is not None and it['cancels'][0] > f_late + (backoff or 0) + W2 and 'OPERATOR_EXITING' not in reasons:
